@@ -22,7 +22,7 @@ import (
 	"github.com/flamego/flamego/verifharness/internal/rt"
 )
 
-const rule = "case = a valid route set (possibly empty; some routes header-constrained, some with their constraints cleared again by Headers(); default, user-supplied or handler-less not-found set-up) and 1..8 requests whose method is any string (known, lower-case, unknown, empty, with blanks) and whose URL.Path is set directly to arbitrary bytes assembled from hostile pieces (empty, repeated/trailing slashes, '%', '%zz', NUL, 0xFF, route-syntax characters, runs up to 64 KiB / 4000 segments, instances of registered routes; optionally with an over-escaped URL.RawPath next to it), with nil or arbitrary headers (incl. constrained headers present with an empty list of values, 300 fields, a 70 KB value, the same field several times). " +
+const rule = "case = a valid route set (possibly empty; some routes header-constrained, some with their constraints cleared again by Headers(); now and then 9..14 static subtrees under one node, with requests for segments that sort in front of, between and behind them; default, user-supplied or handler-less not-found set-up) and 1..8 requests whose method is any string (known, lower-case, unknown, empty, with blanks) and whose URL.Path is set directly to arbitrary bytes assembled from hostile pieces (empty, repeated/trailing slashes, '%', '%zz', NUL, 0xFF, route-syntax characters, runs up to 64 KiB / 4000 segments, instances of registered routes; optionally with an over-escaped URL.RawPath next to it), with nil or arbitrary headers (incl. constrained headers present with an empty list of values, 300 fields, a 70 KB value, the same field several times). " +
 	"Oracle: nothing escapes ServeHTTP; the application middleware started exactly once; exactly one of {a route handler, the not-found chain} ran; unknown methods go to the not-found chain (a method that is a known one in another letter case is left open); serving the same request again gives the identical outcome, also on a fresh instance in reverse order; the handler that ran is the reference matcher's winner (paths of <=64 segments without newline; longer ones: the route that answered admits the path, and an admitted path is not left to not-found). " +
 	"non-trivial = a case with a request whose path is not '/'-separated printable ASCII words (an escape, an empty segment, a non-UTF-8 or control byte, longer than 256 bytes) or whose method is not one of the nine; distinct by case text. Native fuzzing (thorough) decodes bytes into (route subset, method, not-found kind, header, path)"
 
@@ -357,6 +357,18 @@ func genCase(t *rapid.T) Case {
 		r := []string{"/oc/{p: **, capture: " + oc + "}/raw/{name}", "/oc/{p: **, capture: " + oc + "}"}[rapid.IntRange(0, 1).Draw(t, "ock")]
 		c.Regs = append(c.Regs, rt.Reg{M: "GET", R: r})
 	}
+	wide := 0
+	if rapid.IntRange(0, 7).Draw(t, "wide") == 0 {
+		// many static subtrees under one node (with, now and then, a match-all
+		// route next to them)
+		wide = rapid.IntRange(9, 14).Draw(t, "nwide")
+		for i := 0; i < wide; i++ {
+			c.Regs = append(c.Regs, rt.Reg{M: "GET", R: fmt.Sprintf("/wd/w%c/leaf", 'a'+i)})
+		}
+		if rapid.IntRange(0, 2).Draw(t, "widerest") == 0 {
+			c.Regs = append(c.Regs, rt.Reg{M: "GET", R: "/wd/{rest: **}"})
+		}
+	}
 	c.UserNotFound = rapid.Bool().Draw(t, "unf")
 	c.EmptyNotFound = rapid.IntRange(0, 5).Draw(t, "enf") == 0
 	// some routes are header-constrained
@@ -382,6 +394,12 @@ func genCase(t *rapid.T) Case {
 			m = ex[rapid.IntRange(0, len(ex)-1).Draw(t, "mi")]
 		}
 		pth := genPath(t, c.Regs)
+		if wide > 0 && rapid.IntRange(0, 2).Draw(t, "widereq") == 0 {
+			// around the static subtrees: one of them, and segments that sort in
+			// front of, between and behind them
+			pth = "/wd/" + []string{"wa", "wc", fmt.Sprintf("w%c", 'a'+wide-1), "w", "wb0", "wzz", "zulu", "~", "A", "wa/", ""}[rapid.IntRange(0, 10).Draw(t, "wseg")] +
+				[]string{"/leaf", "/leaf", "/x", "/", ""}[rapid.IntRange(0, 4).Draw(t, "wtail")]
+		}
 		if len(c.Regs) > 0 && rapid.IntRange(0, 9).Draw(t, "keysplit") == 0 {
 			// method and path are two strings, not one: split "<METHOD><path>" of
 			// a registered static-looking route somewhere else
